@@ -572,7 +572,7 @@ def check_c03(run: Run, prog: Program) -> None:
     # the dtype of an assembled matrix: a value that was normalised / divided must not be stored into a buffer typed after the raw representative
     from geolint import kinds
     n4 = kinds.rule_K7w(run, prog)
-    run.floor("stores of widened values into assembled buffers", n4, 6)
+    run.floor("stores of widened values into assembled buffers", n4, 2)
     run.stats.update({"sinks": n1, "numeric_returns": n2, "eq_resolutions": n3, "widened_stores": n4})
     for name in ("PolygonTensor.contains", "Triangle.contains", "SegmentTensor.contains"):
         prog.func(name)
